@@ -220,9 +220,14 @@ class LangServer:
         self.root_path = path_from_uri(
             params.get("rootUri") or params.get("rootPath") or ""
         )
-        self.source_dirs.add(self.root_path)
 
         self._load_config_file()
+        # Source directories given on the command line or in the configuration file
+        # are the ones to search, through either channel; without any, the root
+        # directory and every directory below it that holds sources
+        self._source_dirs_configured = len(self.source_dirs) > 0
+        if not self._source_dirs_configured:
+            self.source_dirs.add(self.root_path)
         update_recursion_limit(self.recursion_limit)
         self._resolve_globs_in_paths()
         self._config_logger(request)
@@ -1787,9 +1792,7 @@ class LangServer:
         in the configuration file or no configuration file is present
         """
         # Recursively add sub-directories that only match Fortran extensions
-        if len(self.source_dirs) != 1:
-            return None
-        if self.root_path not in self.source_dirs:
+        if getattr(self, "_source_dirs_configured", False):
             return None
         self.source_dirs = set()
         for root, dirs, files in os.walk(self.root_path):
